@@ -1222,6 +1222,50 @@ func runC07(c *Ctx) {
 			c.equalsLine(obj1("k", d), obj1("k", a))
 		}
 	}
+	// sizes at which an implementation may split the comparison into chunks or workers: one difference at the start, in the
+	// middle, at a chunk boundary, at the end
+	for _, n := range []int{4095, 4096, 4097, c.N(5000, 20000)} {
+		a := &Tree{K: '['}
+		for i := 0; i < n; i++ {
+			a.Xs = append(a.Xs, tInt(i%7))
+		}
+		c.equalsLine(a, cloneTree(a))
+		for _, at := range []int{0, 1, n / 16, n / 4, n / 2, n/2 + 1, n - 2, n - 1} {
+			b := cloneTree(a)
+			b.Xs[at] = tInt(7)
+			c.equalsLine(a, b)
+			c.equalsLine(list1(b), list1(a))
+		}
+	}
+	// a container compared with a part of itself (the operands share nodes at different depths): the shapes differ, so they
+	// are unequal — in both argument orders; and a separately built twin of the part equals the part, not the whole
+	{
+		m := c.M
+		m.Case("equals-own-part")
+		leaf := m.NewList(gvInt(7))
+		mid := m.NewList(m.RefGV(leaf))
+		top := m.NewList(m.RefGV(mid))
+		twinMid := m.NewList(m.RefGV(m.NewList(gvInt(7))))
+		for _, p := range [][2]string{{top, mid}, {mid, top}, {mid, leaf}, {leaf, mid}, {top, leaf}, {mid, twinMid}, {twinMid, mid}, {top, twinMid}, {twinMid, top}, {top, top}, {mid, mid}} {
+			m.Equals(p[0], p[1])
+		}
+		o3 := m.NewObject(gvStr("v"), gvInt(1))
+		o2 := m.NewObject(gvStr("v"), gvInt(1), gvStr("next"), m.RefGV(o3))
+		o1 := m.NewObject(gvStr("v"), gvInt(1), gvStr("next"), m.RefGV(o2))
+		twin2 := m.NewObject(gvStr("v"), gvInt(1), gvStr("next"), m.RefGV(m.NewObject(gvStr("v"), gvInt(1))))
+		for _, p := range [][2]string{{o1, o2}, {o2, o1}, {o2, o3}, {o3, o2}, {o2, twin2}, {twin2, o2}, {o1, twin2}, {twin2, o1}, {o1, o1}} {
+			m.OEquals(p[0], p[1])
+		}
+		// the same part held twice by one operand, once by the other
+		two := m.NewList(m.RefGV(leaf), m.RefGV(leaf))
+		one := m.NewList(m.RefGV(leaf), m.RefGV(m.NewList(gvInt(8))))
+		m.Equals(two, one)
+		m.Equals(one, two)
+		wrap := m.NewList(m.RefGV(two))
+		m.Equals(wrap, two)
+		m.Equals(two, wrap)
+		c.St.Eval("equals-own-part", true)
+	}
 	for _, depth := range []int{64, 65, 300, c.N(600, 3000)} {
 		mk := func(leaf *Tree) *Tree {
 			t := list1(leaf)
@@ -1359,7 +1403,11 @@ func (d *errDoc) scalar() {
 		d.add("}")
 		return
 	}
-	switch d.r.Intn(8) {
+	switch d.r.Intn(9) {
+	case 6:
+		// a backslash directly before a line end inside a string (a "line continuation" in other notations): the escape takes
+		// the next character, whatever it is, and a line feed still ends a line — after \r too, and after an escaped backslash
+		d.add([]string{"\"a\\\r\nb\"", "\"a\\\nb\"", "\"a\\\\\nb\"", "\"x\\\ry\"", "\"\\\n\\\n\"", "\"a\\\r\n\\\r\nb\"", "\"\\\\\\\r\n\""}[d.r.Intn(7)])
 	case 0:
 		d.add("null")
 	case 1:
